@@ -88,9 +88,10 @@ EXPECTED_CLASS = {
     "SOB": "SobolDeme",
     "STUB": "StubDeme",
     "STUBEA": "StubDeme2",
+    "STUBX": "StubDeme3",
 }
 POP_SIZE = {e: 6 for e in POP_ENGINES}
-POP_SIZE.update({"LHS": 5, "SOB": 4, "STUB": 3, "STUBEA": 3})
+POP_SIZE.update({"LHS": 5, "SOB": 4, "STUB": 3, "STUBEA": 3, "STUBX": 3})
 
 _CENTER = np.array([0.3, 0.6, 0.45, 0.55, 0.35, 0.65, 0.4, 0.5])
 
@@ -500,6 +501,11 @@ class StubDeme2(StubDeme):
     pass
 
 
+class StubDeme3(StubDeme):
+    """Registered for StubLevelConfig by worlds that use the engine name STUBX (another tree of the
+    same process may register StubDeme for the very same config class)."""
+
+
 # --------------------------------------------------------------------------------------
 # level / mechanism / condition construction
 # --------------------------------------------------------------------------------------
@@ -544,7 +550,7 @@ def make_level(engine, problem, lsc, gens, box, desc):
         return LHSLevelConfig(problem=problem, lsc=lsc, pop_size=5)
     if engine == "SOB":
         return SobolLevelConfig(problem=problem, lsc=lsc, pop_size=4)
-    if engine == "STUB":
+    if engine in ("STUB", "STUBX"):
         return StubLevelConfig(problem=problem, lsc=lsc)
     if engine == "STUBEA":
         return StubEAConfig(problem=problem, lsc=lsc)
@@ -757,7 +763,9 @@ class World:
             opts["hibernation"] = True
         self.hib = bool(d["hib"])
         extra = {}
-        if "STUB" in self.engines or "STUBEA" in self.engines:
+        if "STUBX" in self.engines:
+            extra["config_class_to_deme_class"] = {StubLevelConfig: StubDeme3, StubEAConfig: StubDeme2}
+        elif "STUB" in self.engines or "STUBEA" in self.engines:
             extra["config_class_to_deme_class"] = {StubLevelConfig: StubDeme, StubEAConfig: StubDeme2}
         self.config = TreeConfig(levels, self.gsc, ProbeSprout(sm, self), options=opts, **extra)
         self.constructing = True
